@@ -5,6 +5,8 @@
     defective values; they are stated, refuted with a witness and proved in the weaker form that does hold. *)
 From DynVerif Require Import Base Graph Spec.
 From DynVerif.proofs Require Import CoreInv QueryFacts QueryFacts2.
+From DynVerif Require Import StatsSpec.
+From DynVerif.proofs Require Import HistSpecFacts.
 
 Theorem C02_reach : forall dir rem cs, InvAdj (run_calls (empty_graph dir rem) cs).
 Proof. intros. apply InvAdj_run, InvAdj_init. Qed.
@@ -158,6 +160,37 @@ Theorem C02_number_of_interactions_pair : forall g u v t,
   number_of_interactions g (Some (u, v)) t = Some (if has_interaction g u v t then 1 else 0).
 Proof. reflexivity. Qed.
 Print Assumptions C02_number_of_interactions_pair.
+
+(** ** The same queries stated over the HISTORY of accepted calls (no graph state on the right-hand sides): for every call sequence on
+    either class, [g] the removal-enabled graph reached and [h] the accepted calls.  [hs_pair] = presence of u->v / {u,v} by the spans
+    ([pres]), [hs_node h u t] = some accepted call with endpoint u has t in its span, [hs_is_node] = some accepted call names u. *)
+Theorem C02_history : forall dir cs,
+  let g := run_calls (C01Facts.G0 dir) cs in let h := accepted (C01Facts.G0 dir) cs in
+  (forall u v t, has_interaction g u v (Some t) = hs_pair dir h u v t) /\
+  (forall u v, has_interaction g u v None = hs_named dir h u v) /\
+  (forall u t, has_node g u (Some t) = hs_node h u t) /\
+  enumerates (node_ids g) (hs_is_node h) /\
+  (forall t, enumerates (nodes_at g t) (fun u => hs_node h u t = true)) /\
+  (forall t, number_of_nodes g (Some t) = card (fun u => hs_node h u t) (node_ids g) /\
+             number_of_nodes g None = Z.of_nat (length (node_ids g))) /\
+  (forall u t, enumerates (nbrs_at g u (Some t)) (fun v => hs_pair dir h u v t = true) /\
+               enumerates (preds_at g u (Some t)) (fun v => hs_pair dir h v u t = true)) /\
+  (forall u t, deg1 g (Some t) u =
+     if dir then card (fun v => hs_pair dir h u v t) (node_ids g) + card (fun v => hs_pair dir h v u t) (node_ids g)
+     else card (fun v => hs_pair dir h u v t) (node_ids g)).
+Proof.
+  intros dir cs. split; [exact (hist_pair dir cs)|]. split; [exact (hist_pair_flat dir cs)|]. split; [exact (hist_node dir cs)|].
+  split; [exact (hist_nodes dir cs)|]. split; [exact (hist_nodes_at dir cs)|]. split; [exact (hist_number_of_nodes dir cs)|].
+  split; [exact (hist_neighbors dir cs)|exact (hist_degree dir cs)].
+Qed.
+Print Assumptions C02_history.
+(** size(t) on DynDiGraph = the number of distinct ordered pairs of the history present at t *)
+Theorem C02_history_size : forall cs t ks,
+  let g := run_calls (C01Facts.G0 true) cs in let h := accepted (C01Facts.G0 true) cs in
+  NoDup ks -> (forall c, In c h -> In (ckey true c) ks) ->
+  size g (Some t) = Z.of_nat (length (filter (fun k => pres true true h k t) ks)).
+Proof. intros cs t ks g h Hn Hc. exact (hist_size_directed true cs eq_refl t ks Hn Hc). Qed.
+Print Assumptions C02_history_size.
 
 Example C02_example :
   let g := run_calls (empty_graph true true) [mkCall 1 2 0 (Some 3); mkCall 3 1 1 None; mkCall 1 1 2 None] in
